@@ -12,7 +12,7 @@ import os
 import re
 
 from vf.extract import extract_item, match_brace, ExtractError
-from vf.unit import Unit
+from vf.unit import Unit, split_or_pattern_guard_arms
 
 HERE = os.path.dirname(os.path.abspath(__file__))
 
@@ -40,12 +40,14 @@ pub trait FX: FieldX + Hash + Eq {
 pub mod ax {
     use super::*;
     // ASSUMPTIONS (listed in evidence): derived Hash/Eq of the key types, and Hash/Eq of the field type, obey vstd's key model
+    /// ASSUMPTION: an expression graph holds fewer than 2^32 - 1 nodes (ExprId is a u32 index the builder never range-checks)
+    pub broadcast axiom fn graph_ids_fit_u32<F>(g: ExpressionGraph<F>) ensures #[trigger] g.nodes@.len() < 0xFFFF_FFFE;
     pub broadcast axiom fn km_expr_id() ensures #[trigger] vstd::std_specs::hash::obeys_key_model::<ExprId>();
     pub broadcast axiom fn km_cse() ensures #[trigger] vstd::std_specs::hash::obeys_key_model::<(BinOpKind, ExprId, ExprId)>();
     pub broadcast axiom fn km_mul_add() ensures #[trigger] vstd::std_specs::hash::obeys_key_model::<MulAddKey>();
     pub broadcast axiom fn km_horner() ensures #[trigger] vstd::std_specs::hash::obeys_key_model::<HornerAccKey>();
 }
-broadcast use {ax::km_expr_id, ax::km_cse, ax::km_mul_add, ax::km_horner, vstd::std_specs::hash::group_hash_axioms};
+broadcast use {ax::graph_ids_fit_u32, ax::km_expr_id, ax::km_cse, ax::km_mul_add, ax::km_horner, vstd::std_specs::hash::group_hash_axioms};
 
 pub struct ExpressionGraph<F> { pub nodes: Vec<Expr<F>> }
 /// the fields of ExpressionBuilder<F> present without the `debugging` / `profiling` features
@@ -278,6 +280,7 @@ def build():
     u.cfgs = dict(u.cfgs, **{'feature="debugging"': False, 'feature="profiling"': False})
     u.assume('field laws (commutative ring with 1, inverses of non-zero elements); exec field operators + - * == are the spec operations (trait FX/FieldX); Dup::dup returns an equal value')
     u.assume('derived Hash/Eq of BinOpKind/MulAddKey/HornerAccKey/ExprId tuples and Hash/Eq of the field type obey vstd::std_specs::hash::obeys_key_model; hashbrown maps treated as std (R7)')
+    u.assume('an expression graph holds fewer than 2^32 - 1 nodes: ExprId(len as u32) is treated as non-truncating (axiom graph_ids_fit_u32; the builder does not check)')
     u.assume('built without the `debugging` and `profiling` cargo features (R10): allocation log, scope stack and counters are absent; log_alloc is the no-op of that configuration')
     fld = open(os.path.join(HERE, 'gadget_prelude.rs')).read()
     fld = fld[:fld.index('// =====================================================================================================\n// Circuit builder interface')] + '\n} // verus!\n'
@@ -286,7 +289,6 @@ def build():
 
     G = 'circuit/src/expr.rs'
     ae = u.extract(G, r'impl<F> ExpressionGraph<F>', 'add_expr', 'ExpressionGraph::add_expr')
-    ae.requires('ids_fit_u32', 'old(self).nodes@.len() < 0xFFFF_FFFF')
     ae.ensures('appends_and_returns_the_new_position', 'final(self).nodes@ == old(self).nodes@.push(expr) && ret.0 == old(self).nodes@.len()')
     ge = u.extract(G, r'impl<F> ExpressionGraph<F>', 'get_expr', 'ExpressionGraph::get_expr')
     ge.requires('in_range', '(id.0 as int) < self.nodes@.len()')
@@ -351,13 +353,15 @@ def build():
             return f'self.define_const({field_arith(m.group(1))}, label)'
         f.rewrite_re('R11', r'self\.define_const\(([^,()]*[-+*][^,()]*), label\)', fa)
         f.rewrite_re('R8', r'self\.log_alloc\((\w+), label, \|\| \(\)\);', r'self.log_alloc(\1, label);')
+        split_or_pattern_guard_arms(f)
+        # partial correctness: a (mutually) recursive builder operation is checked against the callee contracts, termination is not claimed
+        f.attr('#[verifier::exec_allows_no_decreases_clause]')
         fns.append(f)
         return f
 
     WF = 'old(self).wf()'
     def common(f, operands, extra_start=''):
         f.requires('representation_invariant', WF)
-        f.requires('ids_fit_u32', 'old(self).nodes().len() + 1 < 0xFFFF_FFFF')
         if operands:
             f.requires('operands_allocated', ' && '.join(f'inr(old(self).nodes(), {o})' for o in operands))
         f.ensures('invariant_kept_graph_only_grows', 'final(self).wf() && final(self).grows(old(self)) && inr(final(self).nodes(), ret)')
@@ -379,7 +383,6 @@ def build():
     dc.ensures('is_a_constant_node', 'final(self).nodes()[ret.0 as int] == Expr::<F>::Const(val)')
 
     ab = ext('add_bin_op')
-    ab.requires('ids_fit_u32', 'old(self).nodes().len() < 0xFFFF_FFFF')
     ab.ensures('appends_the_node', 'final(self).nodes() == old(self).nodes().push(expr) && ret.0 == old(self).nodes().len() && final(self).const_pool == old(self).const_pool && final(self).cse_pool == old(self).cse_pool '
                '&& final(self).mul_add_pool == old(self).mul_add_pool && final(self).horner_acc_pool == old(self).horner_acc_pool && final(self).bool_check_pool == old(self).bool_check_pool && final(self).pending_connects == old(self).pending_connects')
 
